@@ -63,8 +63,11 @@ def _case(draw):
                 # same link file or in '.Links' (which sorts before '.names'): hidden stays hidden
                 h.append(draw(st.sampled_from([None, None, "before", "after", "other-file"])))
             hide.append(h)
-    k = len(names) + 5
-    return {"names": names, "parent": draw(st.sampled_from(PARENTS)), "handler": handler, "hide": hide,
+    # two link files that each ADD an entry, the two tying on title and number: their relative order must not depend on which
+    # link file the OS happens to enumerate first
+    ties = draw(st.sampled_from([0, 0, 0, 2, 3])) if handler == "umn" else 0
+    k = len(names) + 5 + ties
+    return {"names": names, "parent": draw(st.sampled_from(PARENTS)), "handler": handler, "hide": hide, "ties": ties,
             "perm1": draw(st.permutations(list(range(k)))), "perm2": draw(st.permutations(list(range(k)))),
             "form2": draw(st.sampled_from(["http", "gemini", "gdollar", "wap", "spartan"]))}
 
@@ -149,6 +152,10 @@ def _spec(case):
     if links_blocks:
         spec.append([pre + ".Links", "f", "\n".join(links_blocks)])
         content[".Links"] = "\n".join(links_blocks)
+    for i in range(case.get("ties", 0)):
+        t = "Name=same title\nType=0\nPath=/elsewhere/%d\nHost=other.example\nPort=70\n" % i
+        spec.append([pre + ".tie%d" % i, "f", t])
+        content[".tie%d" % i] = t
     return spec, ("/" + case["parent"] if case["parent"] else "/"), content
 
 
